@@ -120,10 +120,17 @@ def run_case(c):
             "Advection": (ex.stepper.Advection(D, L, N, dt, velocity=vel)(u0), np.sin(ph - vel * dt * k1)),
             "Dispersion": (ex.stepper.Dispersion(D, L, N, dt, dispersivity=xi)(u0), np.sin(ph - xi * dt * k3)),
         }
+        # wave equation h_tt = c^2 Lap h from (h, v) = (sin, 0.3 w cos): h = sin(ph) cos(w t) + 0.3 cos(ph) sin(w t), v = h_t
+        cs = 1.3
+        om = cs * np.sqrt(k2)
+        w0 = jnp.asarray(np.concatenate([np.sin(ph), 0.3 * om * np.cos(ph)]), dtype=default)
+        wave = ex.stepper.Wave(D, L, N, dt, speed_of_sound=cs)(w0)
+        outs["Wave"] = (wave, np.concatenate([np.sin(ph) * np.cos(om * dt) + 0.3 * np.cos(ph) * np.sin(om * dt),
+                                             om * (-np.sin(ph) * np.sin(om * dt) + 0.3 * np.cos(ph) * np.cos(om * dt))]) )
         for n, (got, want) in outs.items():
             o = np.asarray(got)
             res["out_dtypes"][n] = str(o.dtype)
-            res["errs"][n] = float(np.max(np.abs(o.astype(np.float64) - want))) if np.all(np.isfinite(o)) else float("inf")
+            res["errs"][n] = float(np.max(np.abs(o.astype(np.float64) - want)) / max(1.0, np.max(np.abs(want)))) if np.all(np.isfinite(o)) else float("inf")
         return res
     raise KeyError(kind)
 
@@ -142,6 +149,13 @@ def run_batch(cases):
 MARK = "@@C19-RESULT@@"
 
 if __name__ == "__main__":
+    import os
+    if os.environ.get("C19_LATE_X64") == "1":
+        # double precision switched on AFTER the library was imported (jax.config.update, the other documented switch): anything the
+        # library evaluates at import time must not freeze the single-precision default
+        import exponax  # noqa: F401
+        import jax
+        jax.config.update("jax_enable_x64", True)
     cases = json.load(sys.stdin)
     real_stdout = sys.stdout
     sys.stdout = sys.stderr          # the library prints warnings (e.g. KS conservative in 2D); keep them out of the result
